@@ -136,7 +136,8 @@ Bkey  3;
 def make_sources(rng, base: Path, n: int):
     for i in range(n):
         (base / f"src{i}").write_text(SOURCE_TMPL.format(n=i, a=rng.randrange(1, 99), b=rng.choice(["'x y'", "2.5", "true"])))
-        (base / f"inc_{i}").write_text(f"fromInclude  {i};\nscopeA {{ incInScope {i}; sub {{ incLeaf {i}; }} }}\n")
+        (base / f"inc_{i}").write_text(f"// comment of the include file\nfromInclude  {i}; // trailing comment in the include\n"
+                                       f"scopeA {{ incInScope {i}; sub {{ incLeaf {i}; }} }}\n/* block comment of the include */\n")
         (base / f"parsed.src{i}").write_text("preExisting  1;\nscopeA { old 2; }\n")   # matters for --mode a
 
 
@@ -200,6 +201,58 @@ def e2e_case(args):
         shutil.rmtree(tmp, ignore_errors=True)
 
 
+def session_case(args):
+    """a Python session calling DictParser.parse several times (one process) against the command run once per call
+    (a new process each time): after every call the files written must agree, whatever was parsed before"""
+    flist, srcname, seed = args
+    import random
+
+    rng = random.Random(seed)
+    tmp = native.scratch_dir("c17s_")
+    try:
+        a, b = tmp / "cli", tmp / "api"
+        for d in (a, b):
+            d.mkdir()
+        make_sources(rng, a, 2)
+        for p in a.iterdir():
+            shutil.copy(p, b / p.name)
+        # API: one process, all calls; after each call the changed files are copied aside
+        steps = []
+        for i, f in enumerate(flist):
+            k = expected_kwargs(f)
+            steps.append(f"DictParser.parse({srcname!r}, includes={k['includes']!r}, mode={k['mode']!r}, order={k['order']!r}, "
+                         f"comments={k['comments']!r}, scope={k['scope']!r}, output={k['output']!r})\nkeep({i})\n")
+        code = ("import logging,sys,os,shutil,hashlib; logging.disable(logging.CRITICAL)\nfrom dictIO import DictParser\n"
+                "def snap():\n    return {n: open(n,'rb').read() for n in sorted(os.listdir('.')) if os.path.isfile(n)}\n"
+                "state = {'s': snap()}\n"
+                "def keep(i):\n    now = snap()\n    os.makedirs(f'_steps/{i}', exist_ok=True)\n"
+                "    for n, bts in now.items():\n        if state['s'].get(n) != bts:\n            open(f'_steps/{i}/{n}','wb').write(bts)\n"
+                "    state['s'] = now\n" + "".join(steps))
+        env = dict(os.environ, PYTHONPATH="/repo/src", PYTHONHASHSEED="0", PYTHONDONTWRITEBYTECODE="1")
+        p = subprocess.run(["/venv/bin/python", "-B", "-c", code], cwd=b, env=env, capture_output=True, text=True, timeout=300, check=False)
+        if p.returncode != 0:
+            return ("session-raises", f"the API session failed: {p.stderr[-300:]}")
+        # CLI: one process per call
+        prev = {n: (a / n).read_bytes() for n in sorted(os.listdir(a)) if (a / n).is_file()}
+        for i, f in enumerate(flist):
+            rc, out, err = run_cli(a, argv_of(f, srcname, None))
+            now = {n: (a / n).read_bytes() for n in sorted(os.listdir(a)) if (a / n).is_file()}
+            (a / "_steps" / str(i)).mkdir(parents=True, exist_ok=True)
+            for n, bts in now.items():
+                if prev.get(n) != bts:
+                    (a / "_steps" / str(i) / n).write_bytes(bts)
+            prev = now
+        sa, sb = snapshot(a / "_steps"), snapshot(b / "_steps")
+        if sa != sb:
+            diff = sorted(set(sa) ^ set(sb)) or [k for k in sa if sa[k] != sb.get(k)]
+            i = int(diff[0].split("/")[0])
+            return ("session-differs", f"call {i} of the session {[argv_of(f, srcname, None)[1:] for f in flist]} wrote {diff[:3]} differently from the command "
+                                       f"(command: {sa.get(diff[0], b'<absent>')[:200]!r}; session: {sb.get(diff[0], b'<absent>')[:200]!r})")
+        return None
+    finally:
+        shutil.rmtree(tmp, ignore_errors=True)
+
+
 def failure_case(kind: str):
     tmp = native.scratch_dir("c17f_")
     try:
@@ -238,6 +291,8 @@ def oracle(case: dict):
         return None
     if case["kind"] == "e2e":
         return e2e_case((case["flags"], case["src"], case["seed"]))
+    if case["kind"] == "session":
+        return session_case((case["flist"], case["src"], case["seed"]))
     if case["kind"] == "failure":
         return failure_case(case["what"])
     raise ValueError(case["kind"])
@@ -317,6 +372,17 @@ def run(ctx):
         if r:
             ctx.oracle_fail(c, r[0], r[1])
         ctx.count(("e", repr(f), src, seed), nondefault(f) >= 2, "e2e", sample={"argv": argv_of(f, src, "log.txt")} if len(ctx.samples) < 5 else None)
+    # 2b. sessions: several parse calls in one process against one command per call (JSON output is left out: it
+    #     spells placeholder ids, which differ between a fresh process and a running one: known finding of C08)
+    nojson = [f for f in matrix if f["out"] != "json" and not f["log"]]
+    ssjobs = [([rng.choice(nojson) for _ in range(rng.randrange(2, 5))], f"src{i % 2}", ctx.seed + 5000 + i) for i in range(ctx.n(24, 300))]
+    with ThreadPoolExecutor(max_workers=16) as ex:
+        ssresults = list(ex.map(session_case, ssjobs))
+    for (flist, src, seed), r in zip(ssjobs, ssresults):
+        c = {"kind": "session", "flist": flist, "src": src, "seed": seed}
+        if r:
+            ctx.oracle_fail(c, r[0], r[1])
+        ctx.count(("s", repr(flist), src, seed), True, "session")
     # 3. failure cases
     for what in ("missing", "bad-o", "bad-mode", "unknown-scope", "unknown-scope-list"):
         c = {"kind": "failure", "what": what}
